@@ -11,8 +11,10 @@ on it reports as a source error, never as a pass):
   cdef class C:                     -> class C:
   class-level `cdef:` blocks        -> dropped (attribute declarations)
   cdef [inline] T f(T a, U* p) [except x] [nogil]:   -> def f(a, p__null, p__in):
-  def f(self, object a, char b):    -> def f(self, a, b):                     (C types of parameters dropped)
-  cdef: / cdef T x [= e]            -> x = e when initialised, else dropped   (C types of locals dropped)
+  def f(self, object a, char b):    -> def f(self, a, b): b = __cast__("char", b)   (header types stripped; a NARROW
+                                       integer parameter type is re-applied as a cast on entry)
+  cdef: / cdef T x [= e]            -> x = e when initialised; an uninitialised C scalar -> x = __undef__()
+                                       every later store to a local of a NARROW integer type -> x = __cast__("T", e)
   <T> e                             -> __cast__("T", e)                       (operand = one unary/primary expression)
   &buf[e]                           -> __addr__(buf, e)
   p[0] for a pointer parameter p    -> p__v (a local initialised from p__in); `p == NULL` -> p__null
@@ -23,8 +25,11 @@ on it reports as a source error, never as a pass):
   NULL                              -> None
   with nogil:                       -> if True:
 
-C integer widths are NOT carried by the translation: contracts on translated functions run in 64-bit two's-complement
-mode with a no-overflow obligation per operation and state explicit ranges for narrower C types (DESIGN.md)."""
+C integer widths: 64-bit and pointer-sized types (int64_t, Py_ssize_t, size_t, long long, pointers) are the machine
+word of the executor's bv64 mode (a no-overflow obligation per operation; signedness of 64-bit casts is not tracked).
+Narrow types (char, short, int, int8/16/32_t, their unsigned forms, bint) are made explicit: __cast__ masks unsigned
+and sign-extend-truncates signed values (what gcc/clang do), at parameter entry and at every store, so that a change
+of a declared C type changes the verified text (seeded change C10-b)."""
 import os
 import re
 
